@@ -66,3 +66,13 @@ pub fn run_all(cases: &[Value]) -> Vec<Value> {
     out
   })
 }
+
+/// optslot: calculate_required_slot_size(target, count) (a pub fn) - case {"target": t, "count": c} -> rows [[4, size]]
+pub fn run_slot(c: &Value) -> Value {
+  let t = c["target"].as_u64().unwrap() as usize;
+  let n = c["count"].as_u64().unwrap() as usize;
+  match std::panic::catch_unwind(|| rzmq::socket::options::calculate_required_slot_size(t, n)) {
+    Ok(v) => json!({ "rows": [[4, v as u64]] }),
+    Err(_) => json!({ "rows": [[5, 0]] }),
+  }
+}
